@@ -550,7 +550,8 @@ func (c20) Generate(r *sim.Rand, tier string) *sim.Scenario {
 		bigA = sid
 		sid++
 		rows := r.Range(64, 70)
-		if r.Bool(0.5) {
+		heavy := !sim.Instrumented() // stage B only: under statement-level yields these cost minutes
+		if heavy && r.Bool(0.5) {
 			rows = r.Range(128, 140) // >= 8192 elements
 		}
 		sc.Steps = append(sc.Steps, sim.Step{C: sharedClient, Op: "tensorof", Out: sid, I: []int{rows, 64}, F: randData(r, rows*64, false)})
@@ -673,8 +674,10 @@ func (c20) Generate(r *sim.Rand, tier string) *sim.Scenario {
 				{C: tk, Op: "sumalong", In: []int{bigM}, I: []int{r.Intn(2)}},
 				{C: tk, Op: "transpose", In: []int{bigA}},
 				{C: tk, Op: "add", In: []int{bigM, bigM}},
-				{C: tk, Op: "matmul", In: []int{bigMT, bigM}}, // right operand of >= 4096 elements
 				{C: tk, Op: "sum", In: []int{bigM}, Out: -1},
+			}
+			if !sim.Instrumented() {
+				forced = append(forced, sim.Step{C: tk, Op: "matmul", In: []int{bigMT, bigM}}) // right operand of >= 4096 elements
 			}
 			for _, j := range r.Perm(len(forced))[:r.Range(1, 3)] {
 				st := forced[j]
